@@ -2,6 +2,9 @@
 EXTENDS NoteLengths, TraceBase
 T_Empty == {}
 Verdict(r) == IF r.raised # "" THEN <<"raised">>
+              ELSE IF r.entry = "bars"
+                   THEN Fails(<< <<"allowed-duration-through-bar-splitting",
+                                   \A x \in Notes(AbsEvents(r.out)) : (x.e - x.s) \in SetOfSeq(r.values)>> >>)
               ELSE IF ~(WellFormed(AbsEvents(r.in)) /\ NoOverlap(Notes(AbsEvents(r.in)))) THEN <<>>
               ELSE Fails(NoteLengthClauses(r.in, r.values, r.noExtend, r.out) \o << <<"views-agree", SameContent(r.out, r.outRel)>> >>)
 TraceInit == /\ TraceStart /\ score = <<>> /\ values = <<>> /\ noExtend = FALSE /\ todo = {} /\ kept = {}
